@@ -648,7 +648,7 @@ fn main() {
     eng.assume("layers are built through the public API: Layer::new, pub properties, Layer::set_char, Layer::set_offset; Buffer::layers is replaced directly; Buffer::new's font table (page 0 only)");
 
     let main_laws = Laws { main: true, noncanonical: false };
-    eng.generated(PartCfg::new("stacks", 300_000, 6_000_000), cases, move |c: &Case| check(c, main_laws));
+    eng.generated(PartCfg::new("stacks", 500_000, 12_000_000), cases, move |c: &Case| check(c, main_laws));
     eng.enumerated(PartCfg::new("tiny_exhaustive", 0, 0).exhaustive(true), TINY_PER_LAYER * TINY_PER_LAYER * TINY_PER_LAYER, tiny_case, move |c: &Case| check(c, main_laws));
     eng.generated(PartCfg::new("invisible_cells", 50_000, 1_000_000), cases, |c: &Case| check(c, Laws { main: false, noncanonical: true }));
     eng.run();
